@@ -225,6 +225,17 @@ def oracle(case):
 		if back != tuple(pairs):
 			fid = 'F1' if any(b < 16 for n, v in pairs for b in (n + v).encode(cs)) else None
 			return {'what': 'form decode(encode(pairs)) != pairs', 'pairs': pairs, 'charset': cs, 'back': back, 'finding': fid}
+		# the pairs handed over in the other containers the codec accepts: a dictionary (its order is the order of insertion), a list
+		# of pairs, an iterator
+		if len({n for n, v in pairs}) == len(pairs) and pairs:
+			import collections
+			for how, mk in (('a dict', lambda: dict(pairs)), ('an OrderedDict', lambda: collections.OrderedDict(pairs)), ('a list of pairs', lambda: [tuple(p) for p in pairs]), ('an iterator', lambda: iter(pairs))):
+				try:
+					back = FormURLEncoded.decode(FormURLEncoded.encode(mk(), cs), cs)
+				except Exception as e:
+					back = 'raised %s' % exc_name(e)
+				if back != tuple(pairs):
+					return {'what': 'form decode(encode(pairs)) != pairs when the pairs are handed over as %s' % how, 'pairs': pairs, 'charset': cs, 'back': back, 'finding': None}
 		return None
 	if kind == 'query':
 		from httoop.uri import URI
@@ -246,6 +257,11 @@ def oracle(case):
 				back = ('on a URI that had a query', u3.query)
 			if back == tuple(pairs) and back2 != back:
 				back = ('via-text', back2)
+			if back == tuple(pairs) and pairs and len({n for n, v in pairs}) == len(pairs):
+				u4 = URI(b'http://h/p')
+				u4.query = dict(pairs)      # a dictionary: its order is the order of insertion
+				if u4.query != tuple(pairs):
+					back = ('set from a dict', u4.query)
 		except Exception as e:
 			back = 'raised %s' % exc_name(e)
 		if back != tuple(pairs):
